@@ -15,7 +15,7 @@ SEED = os.path.join(VERIF, "seeded")
 # changes found by the check of another property as well (established during development)
 ALSO = {"C01-2": ["C04"], "C14-2": ["C18"], "C17-3": ["C06"], "C01-6": ["C04"], "C01-7": ["C08"], "C14-4": ["C03"], "C18-7": ["C19"], "C20-6": ["C01", "C16"],
         "C01-8": ["C19"], "C07-8": ["C04"], "C10-8": ["C03"], "C11-8": ["C08"], "C13-8": ["C16"], "C14-8": ["C18"], "C17-8": ["C05"], "C18-8": ["C19"],
-        "C02-9": ["C04"], "C03-9": ["C08"], "C08-9": ["C03"], "C11-9": ["C04"], "C17-9": ["C04"]}
+        "C02-9": ["C04"], "C03-9": ["C08"], "C08-9": ["C03"], "C11-9": ["C04"], "C17-9": ["C04"], "C19-0": ["C18"], "C20-0": ["C01"]}
 
 THOROUGH = set()
 SEEDS = {}
